@@ -1223,9 +1223,15 @@ async fn probe<P: Proto>(out: &mut Ndjson, v: &Via, path: &[String], want_state:
         .map(|(s, c)| json!({"dir": if matches!(s, S::Send(_)) { "send" } else { "recv" }, "msg": c}))
         .collect();
     if !matches!(reached, Ok(Ok(()))) || state != want_state {
-        // the state could not be set up: reported as a harness-level row, TLC never sees a guess
-        out.ev(json!({"ev": "unreached", "proto": P::NAME, "role": v.role.name(), "path": path, "want": want_state,
-                      "state": state, "why": format!("{reached:?}")}));
+        // the state could not be set up with the committing methods along a valid path:
+        // logged as it happened (TraceAgent accepts a reach event only if it succeeded)
+        let why = match reached {
+            Ok(Ok(())) => String::new(),
+            Ok(Err(e)) => e,
+            Err(_) => "Timeout".to_string(),
+        };
+        out.ev(json!({"ev": "reach", "proto": P::NAME, "role": v.role.name(), "path": path, "want": want_state,
+                      "state": state, "err": why}));
     } else {
         for (s, c) in v.steps.iter().zip(sel.iter()) {
             if matches!(s, S::Recv(_)) {
